@@ -79,12 +79,26 @@ def check_lazy_attributes(ctx, rule, rel, cls, methods):
     back into the attribute they return: otherwise every access hands out a new throw-away object and edits are lost"""
     n = 0
     for name, f in methods:
+        # the cached attribute may reach the parser directly or through a local that was bound to it (`h = self._header`)
+        from_attr = {}
+        for st in ast.walk(f):
+            if isinstance(st, ast.Assign) and isinstance(st.value, ast.Attribute) and isinstance(st.value.value, ast.Name) and st.value.value.id == "self":
+                for t in st.targets:
+                    if isinstance(t, ast.Name):
+                        from_attr[t.id] = st.value.attr
+
+        def attr_of(a):
+            if isinstance(a, ast.Attribute) and isinstance(a.value, ast.Name) and a.value.id == "self":
+                return a.attr
+            if isinstance(a, ast.Name):
+                return from_attr.get(a.id)
+            return None
         des = [c for c in ast.walk(f) if isinstance(c, ast.Call) and isinstance(c.func, ast.Attribute) and c.func.attr == "deserialize"
-               and any(isinstance(a, ast.Attribute) and isinstance(a.value, ast.Name) and a.value.id == "self" for a in c.args)]
+               and any(attr_of(a) for a in c.args)]
         if not des:
             continue
         for c in des:
-            attr = next(a.attr for a in c.args if isinstance(a, ast.Attribute) and isinstance(a.value, ast.Name) and a.value.id == "self")
+            attr = next(attr_of(a) for a in c.args if attr_of(a))
             n += 1
             stored = any(isinstance(st, ast.Assign) and st.value is c and any(
                 isinstance(t, ast.Attribute) and isinstance(t.value, ast.Name) and t.value.id == "self" and t.attr == attr for t in st.targets)
@@ -96,3 +110,28 @@ def check_lazy_attributes(ctx, rule, rel, cls, methods):
                    f"{cls}.{name} parses self.{attr} on demand but does not keep the parsed object (stored back: {stored}, returned from the attribute: "
                    f"{returns_attr}): changes made through the returned object are lost", f.lineno)
     return n
+
+
+def check_missing_key_error(ctx, rule, rel, cls, getitem):
+    """a mapping answers an unknown key with KeyError (that is what `get`, `pop(key, default)`, `setdefault` and `in` of
+    MutableMapping are built on): the look-up of the key in the backing store of __getitem__ must not stand inside a `try` whose
+    handler turns every exception - the KeyError included - into another error"""
+    key = [a.arg for a in getitem.args.args][1] if len(getitem.args.args) > 1 else None
+    looks = [n for n in ast.walk(getitem) if isinstance(n, ast.Subscript) and isinstance(n.ctx, ast.Load) and isinstance(n.value, ast.Attribute)
+             and isinstance(n.value.value, ast.Name) and n.value.value.id == "self" and isinstance(n.slice, ast.Name) and n.slice.id == key]
+    if not looks:
+        return 0
+    first = min(looks, key=lambda n: (n.lineno, n.col_offset))
+    swallowed = None
+    for t in ast.walk(getitem):
+        if isinstance(t, ast.Try) and any(x is first for b in t.body for x in ast.walk(b)):
+            for h in t.handlers:
+                names = {x.id for x in ast.walk(h.type) if isinstance(x, ast.Name)} if h.type is not None else {"BaseException"}
+                if names & {"Exception", "BaseException", "KeyError", "LookupError"}:
+                    reraises_key = any(isinstance(r, ast.Raise) and (r.exc is None or "KeyError" in ast.unparse(r.exc)) for r in ast.walk(h))
+                    if not reraises_key:
+                        swallowed = h
+    ctx.ob(rule, rel, f"{cls}.__getitem__", f"self.{first.value.attr}[{key}] outside any handler that replaces KeyError", swallowed is None,
+           f"the look-up of the key stands inside a try whose handler (line {getattr(swallowed, 'lineno', '?')}) replaces every exception: a missing "
+           "key is reported as another error, and get() / pop(key, default) / setdefault() raise instead of using their default", first.lineno)
+    return 1
